@@ -31,7 +31,13 @@ const shimRoot = modulePath + "/verifx/"
 var swaps = map[string]map[string]string{
 	"pkg/authentication/basic": {"sync": "vsync", "sync/atomic": "vatomic"},
 	".":                        {"sync": "vsync", "sync/atomic": "vatomic"},
-	"pkg/encryption":           {"time": "vtime"},
+	"pkg/encryption":           {"time": "vtime", "sync": "vsync", "sync/atomic": "vatomic"},
+	// session encoding / stores: nothing there uses sync today; the swap only takes effect for a
+	// file that starts to (a cache, a pool), and then its operations become scheduling points
+	"pkg/apis/sessions":        {"sync": "vsync", "sync/atomic": "vatomic"},
+	"pkg/sessions/cookie":      {"sync": "vsync", "sync/atomic": "vatomic"},
+	"pkg/sessions/persistence": {"sync": "vsync", "sync/atomic": "vatomic"},
+	"pkg/cookies":              {"sync": "vsync", "sync/atomic": "vatomic"},
 	"pkg/middleware":           {"time": "vtime", "context": "vcontext"},
 	"pkg/watcher":              {"github.com/fsnotify/fsnotify": "vfsnotify"},
 }
